@@ -1099,11 +1099,14 @@ impl LineBuf {
 		false
 	}
 	pub fn nth_next_line(&mut self, n: usize) -> Option<(usize,usize)> {
-		let line_no = self.cursor_line_number() + n;
-		if line_no >= self.total_lines() {
+		// as far down as there are lines (the position after a final newline is not one);
+		// on the last line there is nowhere to go
+		let last = self.last_line_number();
+		let cursor_line_no = self.cursor_line_number();
+		if cursor_line_no >= last {
 			return None
 		}
-		self.line_bounds(line_no)
+		self.line_bounds((cursor_line_no + n).min(last))
 	}
 	pub fn nth_prev_line(&mut self, n: usize) -> Option<(usize,usize)> {
 		let cursor_line_no = self.cursor_line_number();
